@@ -18,4 +18,16 @@ PROPS = {
         "level_text": "Every explored position's playable-move multiset equals the reference legal-move set (and has no duplicate), on ~2e6 (quick) / ~4e7 (thorough) positions incl. exhaustive 3-men classes, both loaded from FEN and reached by MakeMove; perft through debug.Perft and UCI perft agrees with reference perft. Held on the executions observed, not a proof.",
         "level_note": "trusted: harness/ref rules model (self-tested against published perft counts each run), Go toolchain; positions outside the generators' reach are not covered",
     },
+    "C02": {
+        "pkg": "./c02",
+        "stages": [{"name": "main", "timeout_q": 1500, "timeout_t": 7200}],
+        "rule": "cases = (position, legal move) pairs: every legal move of generated positions (dense, sparse, adversarial e.p./check/castling constructions) and every move of game histories "
+                "(biased playouts, oscillating shuffles, capture-free runs that push the halfmove clock through 100/128/150) played on ONE engine board that is never reloaded, plus UCI scripts "
+                "`position (startpos|fen F) moves ...; fen`; each case compares all six FEN fields of the engine successor with reference Make + e.p. normalisation (target kept iff a legal e.p. capture exists). "
+                "distinct_nontrivial = distinct start keys (one-step) + distinct (start, move list) histories. " + VALID,
+        "assumptions": [REF, "a legal game ends by rule when the halfmove clock reaches 150, histories are generated up to that value"],
+        "technique": "runtime monitor: reference-model successor oracle (field-wise FEN comparison) along carried game histories and through the real UCI driver",
+        "level_text": "Every explored (position, legal move) successor and every prefix of every explored history has exactly the reference FEN (placement, side, rights, normalised e.p., both counters), ~1e6 quick / ~2e7 thorough comparisons, incl. thousands of e.p. targets suppressed because the capture would be illegal and clocks past 128. Held on the executions observed.",
+        "level_note": "trusted: harness/ref Make/Normalised (self-tested by perft and e.p. specials); the UCI path uses the real uci.Driver over in-memory readers",
+    },
 }
